@@ -29,7 +29,11 @@ def render_styled(spec, cls_suffix=""):
             s0 = spec["states"][-1]
             L.append(f"    alias_of_last = {s0['value']['expr'] if s0.get('value') else repr(s0['id'])}")
         L.append("")
-    base_events = list(st.get("base_events") or [])
+    base_split = st.get("base_split")
+    base_events = []
+    if base_split:
+        _exp = [t for t in spec["transitions"] if t.get("from_any") is None]
+        base_events = [e for e in spec["events"] if any(e in t["events"] for t in _exp[:base_split])]
     explicit = [t for t in spec["transitions"] if t.get("from_any") is None]
     any_copies = [t for t in spec["transitions"] if t.get("from_any") is not None]
     any_mode = st.get("any", "any")
@@ -62,12 +66,21 @@ def render_styled(spec, cls_suffix=""):
     # events whose transitions carry the event through event= keyword (no attribute for the event)
     kw_events = {e for e, s_ in evstyle.items() if s_.startswith("kw_")}
 
+    split_first = {}
+    for e, s_ in evstyle.items():
+        if s_ == "split":
+            holders = [t for t in explicit if e in t["events"]]
+            if len(holders) >= 2:
+                split_first[e] = holders[0]["i"]
+
     def ev_kw(t, events_subset):
         """event= argument for the events of t declared by keyword."""
-        evs = [e for e in t["events"] if e in events_subset and e in kw_events]
+        evs = [e for e in t["events"] if e in events_subset and (e in kw_events or split_first.get(e) == t["i"])]
         if not evs:
             return None
         styles_ = {evstyle[e] for e in evs}
+        if styles_ == {"split"}:
+            return "event=" + repr(" ".join(evs))
         if "kw_obj" in styles_:
             objs = [e if evstyle[e] == "kw_obj" else f"Event({e!r})" for e in evs]
             return "event=" + (objs[0] if len(objs) == 1 else "[" + ", ".join(objs) + "]")
@@ -140,13 +153,15 @@ def render_styled(spec, cls_suffix=""):
             expr = f"{n} | ({expr})"
         return expr
 
-    def decl_events(events, ts_pool, indent="    "):
+    def decl_events(events, ts_pool, indent="    ", with_any=True):
         out, deco_events = [], []
         for e in events:
             style = evstyle.get(e, "attr")
-            members = [tname(t) for t in ts_pool if e in t["events"]]
+            members = [tname(t) for t in ts_pool if e in t["events"] and split_first.get(e) != t["i"]]
             anys = []
-            if any_mode == "any":
+            if not with_any:
+                pass
+            elif any_mode == "any":
                 for d in spec.get("any_decls", []):
                     if d["event"] == e:
                         proto = spec["transitions"][d["proto"]]
@@ -210,9 +225,8 @@ def render_styled(spec, cls_suffix=""):
         if with_states:
             out += state_lines(indent)
         out += decl_transitions(ts, set(events), indent)
-        if any_mode == "explicit" and with_states is not None:
-            pass
-        ev_lines, deco_events = decl_events(events, ts, indent)
+        # the base class never declares the from_.any() transitions: they come after all explicit ones
+        ev_lines, deco_events = decl_events(events, ts, indent, with_any=False)
         out += ev_lines
         for e, expr in deco_events:
             cid = spec["style"]["deco_event_cb"]
@@ -222,9 +236,9 @@ def render_styled(spec, cls_suffix=""):
             out += lines
         return out
 
-    if base_events:
-        base_ts = [t for t in explicit if all(e in base_events for e in t["events"])]
-        sub_ts = [t for t in explicit if t not in base_ts]
+    if base_split:
+        base_ts = explicit[:base_split]
+        sub_ts = explicit[base_split:]
         L.append(f"class B_{uid}(StateMachine):")
         L += body(base_ts, base_events, True)
         used = [f"_t{t['i']}" for t in base_ts if t["i"] not in alias]
@@ -234,7 +248,9 @@ def render_styled(spec, cls_suffix=""):
         L.append(f"class M_{uid}(B_{uid}{', strict_states=True' if strict else ''}):")
         old_pre = pre
         pre = f"B_{uid}." + ("_S." if states_style in ("dict", "enum") else "")
-        sub_events = [e for e in spec["events"] if e not in base_events]
+        # events of the subclass: new ones AND inherited ones that get further transitions here
+        sub_events = [e for e in spec["events"] if any(e in t["events"] for t in sub_ts)
+                      or any(d["event"] == e for d in spec.get("any_decls", []))]
         extra_ts = sub_ts + (any_copies if any_mode == "explicit" else [])
         lines = decl_transitions(sub_ts, set(sub_events))
         if any_mode == "explicit":
